@@ -27,6 +27,8 @@ type Group struct {
 	Cases []Case `json:"cases"`
 }
 
+var execCommand = exec.Command
+
 func die(format string, a ...any) {
 	fmt.Fprintf(os.Stderr, format+"\n", a...)
 	os.Exit(2)
